@@ -247,7 +247,7 @@ def main():
     lines.append("* C20 last-tsv-row-wins: repeated TSV rows are identical in the generated domain (conflicting duplicates are undefined by the statement).")
     if not want:
         open(os.path.join(ROOT, "MUTATION_AUDIT.md"), "w").write("\n".join(lines) + "\n")
-    print("\n".join(lines[-(len(results) + 3):]))
+    print("\n".join(l for l in lines if l.startswith("| C") or "mutants," in l))
 
 
 if __name__ == "__main__":
